@@ -639,9 +639,13 @@ def gen_entries(tier, rng):
 
 def generate(tier, seed):
     out = []
-    out += gen_integrate(tier, np.random.default_rng(seed + 2))
-    out += gen_masssum(tier, np.random.default_rng(seed + 3))
-    out += gen_entries(tier, np.random.default_rng(seed + 4))
+    rounds = (20, 8, 4) if tier == 'thorough' else (2, 1, 1)     # further rounds draw other monomials / regions / variants
+    for k in range(rounds[0]):
+        out += gen_integrate(tier, np.random.default_rng(seed + 2 + 1000 * k))
+    for k in range(rounds[1]):
+        out += gen_masssum(tier, np.random.default_rng(seed + 3 + 1000 * k))
+    for k in range(rounds[2]):
+        out += gen_entries(tier, np.random.default_rng(seed + 4 + 1000 * k))
     return out
 
 
